@@ -904,6 +904,20 @@ def normalize_networkx_labels(G):
     return G
 
 
+def _dot_vertex_of_endpoint(endpoint):
+    """The vertex in an edge endpoint of a dot file, which may carry a port
+
+    An endpoint `2:n` or `"a b":f0:sw` is the vertex `2` or `"a b"`,
+    respectively. A colon between double quotes is part of the name.
+    """
+    if endpoint.startswith('"'):
+        end = endpoint.find('"', 1)
+        while end > 0 and endpoint[end - 1] == '\\':
+            end = endpoint.find('"', end + 1)
+        return endpoint[:end + 1] if end > 0 else endpoint
+    return endpoint.split(':', 1)[0]
+
+
 def readGraph(input_file,
               graph_type,
               file_format='autodetect',
@@ -999,6 +1013,15 @@ def readGraph(input_file,
             if len(dots) != 1 or dots[0].get_subgraph_list():
                 raise ValueError('Dot file must contain one graph, '
                                  'without subgraphs')
+            for edge in dots[0].get_edge_list():
+                ends = edge.obj_dict['points']
+                if not all(isinstance(end, str) for end in ends):
+                    # `1 -> { 2 3 }` would be read only in part
+                    raise ValueError('Dot file must contain one graph, '
+                                     'without subgraphs')
+                # `2:n` is vertex 2 (the port only matters to drawings)
+                edge.obj_dict['points'] = tuple(_dot_vertex_of_endpoint(end)
+                                                for end in ends)
             G = networkx.nx_pydot.from_pydot(dots[0])
             try:
                 # work around for a weird parse error in pydot, which
